@@ -613,9 +613,10 @@ func runCase(c Case) (msg, inconc string, stats map[string]int) {
 	sort.Strings(rels)
 	planted := 0
 	for i, rel := range rels {
-		choice := 0
+		choice, variant := 0, 0
 		if len(c.Prior) > 0 {
 			choice = c.Prior[i%len(c.Prior)] % 3
+			variant = c.Prior[i%len(c.Prior)] / 3
 		}
 		content, willWrite := writtenA[rel]
 		var err error
@@ -628,7 +629,20 @@ func runCase(c Case) (msg, inconc string, stats map[string]int) {
 			stats["prior-identical"]++
 		case willWrite:
 			prior[rel] = "stale"
-			err = plantFile(outRoot, rel, content+"(* stale *)\n", i)
+			// a different earlier translation: longer, or of exactly the same length and differing in
+			// one byte only (at the end, at the start, in the middle; seeded change C17-5)
+			staleContent := content + "(* stale *)\n"
+			if b := []byte(content); variant > 0 && len(b) > 2 {
+				pos := map[int]int{1: len(b) - 2, 2: 0, 3: len(b) / 2}[variant]
+				if b[pos] == '#' {
+					b[pos] = '%'
+				} else {
+					b[pos] = '#'
+				}
+				staleContent = string(b)
+				stats["prior-stale-same-length"]++
+			}
+			err = plantFile(outRoot, rel, staleContent, i)
 			stats["prior-stale"]++
 		default:
 			prior[rel] = "other"
